@@ -234,7 +234,7 @@ def run_scenario(run: Run, scen: dict, rng: random.Random):
 
 
 def check(run: Run, tier: str, seed: int):
-    n = 260 if tier == "quick" else 3000
+    n = 520 if tier == "quick" else 3000
     ops = ["integrate", "multiply", "differentiate", "evidence", "integrate", "multiply", "conjugate", "query"]
     for i in range(n):
         srng = random.Random(f"C09-{seed}-{i}")
